@@ -8,6 +8,7 @@ import (
 	"github.com/basecomplextech/baselibrary/buffer"
 	"github.com/basecomplextech/baselibrary/pools"
 	"github.com/basecomplextech/spec/internal/format"
+	"github.com/basecomplextech/spec/internal/verifpoint"
 )
 
 // writerState is a big pooled struct which holds an encoding state.
@@ -56,6 +57,7 @@ func acquireWriterState() *writerState {
 }
 
 func releaseWriterState(s *writerState) {
+	verifpoint.Point("pool.writerstate.put", verifpoint.Ptr(s), 0, 0)
 	s.reset()
 	writerStatePool.Put(s)
 }
